@@ -752,7 +752,7 @@ package xpath
 //@   requires[@C15] d.currentNode != nil
 //@   modifies heap(navpos), d.level
 //@   assume[depth-bound] d.level < 4611686018427387904     // the level of a walk is bounded by the depth of the document
-//@   ensures[level@C01] d.level == ite(result, old(d.level) + 1, old(d.level))
+//@   ensures[level@C01] d.level == ite(result, old(d.level) + 1, old(d.level)) && d.level >= old(d.level)
 //@   theory nav for C13
 //@   ensures[moves-own@C13] movesOnly(d.currentNode)
 //@ func (*descendantOverDescendantQuery).moveUpUntilNext
